@@ -231,6 +231,40 @@ export async function run(ctx) {
           }
         }
   }
+  // chains of value aliases, one link per file, every file laid out identically (equal offsets, equal
+  // identifier lengths): whatever identifies an expression or a declaration must include its file
+  if (ctx.shard === 6 % ctx.of) {
+    const ids = ["aa", "bb", "cc", "dd", "ee"];
+    for (const len of [2, 3, 4])
+      for (const form of ["plain", "as-const", "member", "spread-free-object", "array"])
+        for (const sameLayout of [true, false]) {
+          const leaf = form === "array" ? '["x", 1] as const' : '{ id: "x", n: 1 } as const';
+          const files = {};
+          const single = [`const ${ids[len]} = ${leaf};`];
+          for (let i = len - 1; i >= 0; i--) {
+            const rhs = form === "member" && i === 0 ? `${ids[i + 1]}.id` : form === "as-const" ? `${ids[i + 1]}` : form === "spread-free-object" && i === 0 ? `{ inner: ${ids[i + 1]} }` : ids[i + 1];
+            single.push(`const ${ids[i]} = ${rhs};`);
+            files[`${ids[i]}.ts`] = `import { ${ids[i + 1]} } from "./${ids[i + 1]}";\n${sameLayout ? "" : " ".repeat(i)}export const ${ids[i]} = ${rhs};\n`;
+          }
+          files[`${ids[len]}.ts`] = `export const ${ids[len]} = ${leaf};\n`;
+          files["entry.ts"] = `import { aa } from "./aa";\nexport const Parsers = parse.buildParsers<{ T: typeof aa }>();\n`;
+          const singleText = single.join("\n") + "\nexport const Parsers = parse.buildParsers<{ T: typeof aa }>();\n";
+          const a = await compileFiles(ctx, { "entry.ts": singleText });
+          const b = await compileFiles(ctx, files);
+          ctx.judged();
+          ctx.count("value_alias_chains");
+          const id = `${form}/${len}${sameLayout ? "/same-layout" : ""}`;
+          const where = { kind: "split", single: singleText, files, collision: null };
+          if (!!a.parsers !== !!b.parsers) {
+            ctx.violation({ signature: `${a.parsers ? "split-project-rejected" : "split-project-accepted"}|value-alias-chain|${variantOf(a.parsers ? b.res : a.res)}|${id}`, clause: "outcome-differs", detail: `${id}: single file ${a.res.outcome}, split ${b.res.outcome}: ${JSON.stringify((a.parsers ? b.res : a.res).diagnostics?.[0]?.message ?? "")}`, replay: where });
+            continue;
+          }
+          if (!a.parsers) continue;
+          const vals = [{ id: "x", n: 1 }, { id: "y", n: 1 }, "x", ["x", 1], { inner: { id: "x", n: 1 } }, 1, null];
+          const va = vals.map((v) => a.parsers.T.validate(v)).join(","), vb = vals.map((v) => b.parsers.T.validate(v)).join(",");
+          if (va !== vb) ctx.violation({ signature: `verdicts-differ|value-alias-chain|${id}`, clause: "validators-differ", detail: `${id}: single ${va} split ${vb}`, replay: where });
+        }
+  }
   const nProgs = ctx.share(12000, 200000);
   let sampled = 0;
   for await (const item of corpus(ctx, { label: "C09", count: nProgs, features: FEATURES })) {
